@@ -352,6 +352,21 @@ def check_px(pid, tier, seed, t0):
         "C16": "all assignments of {none,p0,p1,p2} to the six decoration sites of a 2x2 declaration (x id variants) x all truth vectors, and all parameter lists (x decorations x truth vectors x five generators) are run through the real code and compared (a) with the reference 'delete disabled items' and (b) differentially with the undecorated twin (token-identical expansion after cfg-stripping); decorated/twin module pairs with >= 2 distinct predicates of mixed truth are compiled and executed with the real rustc (this exercises the generated cfg-probing macro chain); non-trivial = cases with >= 2 predicates of mixed truth",
     }[pid]
     _guarded(agg, wx_into, agg, pid, tier)
+    # client programs of an unusual but legal shape that must compile (real rustc; the corpus entries of cx that belong to
+    # this property): component names with digits / acronyms / underscores (C05: a valid query must bind to its column),
+    # a query naming a compiled-out archetype in a compiled-out parameter (C16)
+    only = {"C05": ("unusual_names",), "C16": ("cfg_disabled_archetype_named",)}.get(pid)
+    if only:
+        import cx
+        res = _guarded(agg, cx.run, (), "default", only=only)
+        for x in (res or {}).get("results", []):
+            if not x["twin_compiles"]:
+                agg["violations"].append({"prop": pid, "oracle": "well-formed-program-does-not-compile:" + x["name"].split("__")[0], "msg": "a valid client program (%s) does not compile: %s" % (x["name"], x["twin_errors"][:3]),
+                                          "engine": "cx", "history": None, "extra": {"program": x["good"]}})
+            elif not x["rejected"]:
+                agg["violations"].append({"prop": pid, "oracle": "ill-formed-program-compiles:" + x["name"].split("__")[0], "msg": "the ill-formed twin of %s compiles" % x["name"], "engine": "cx", "history": None, "extra": {"program": x["bad"]}})
+        agg["evaluations"] += (res or {}).get("programs", 0)
+        agg["programs"] = agg.get("programs", 0) + (res or {}).get("programs", 0)
     _settle(agg)
     return finish_generic(pid, tier, seed, "exploration", agg, t0)
 
